@@ -1,9 +1,12 @@
-(* Statement pins for C15: each property theorem is re-checked against the statement recorded here. *)
+(* Statement pins for C15: each property theorem is re-checked against the statement recorded here, so a
+   theorem cannot be weakened in its own file without this file failing to compile. *)
 From BT Require Import Base.Util.
-From BT Require Model.Merge Proofs.MergeSig Proofs.MergeInto Properties.C15.
+From BT Require Model.Merge Model.Fill Model.MergeTool Proofs.MergeSig Proofs.MergeInto Proofs.MergeWin Proofs.MergeMany
+  Proofs.FillOk Proofs.MergeToolOk Properties.C15.
 
 Module PinC15.
-Import Model.Merge Proofs.MergeSig Proofs.MergeInto Properties.C15.
+Import Model.Merge Model.Fill Model.MergeTool Proofs.MergeSig Proofs.MergeInto Proofs.MergeWin Proofs.MergeMany
+  Proofs.FillOk Proofs.MergeToolOk Properties.C15.
 Local Open Scope N_scope.
 Check (C15_merge_into : forall one two,
   v_start one < v_end one -> v_start two < v_end two ->
@@ -13,4 +16,61 @@ Check (C15_merge_into : forall one two,
     forall x, sig (pieces r) x = if cov [one; two] x then Some (sigz [one; two] x) else None).
 Check (C15_merge_into_no_overlap : forall one two,
   v_end one <= v_start two \/ v_end two <= v_start one -> merge_into one two = Panic).
+Check (C15_merge_many : forall W vss, 0 < W -> Forall (sorted_from 0) vss ->
+  exists out, merge_sections_many W (map (map IV) vss) = Ok (map IV out) /\
+    sorted_from 0 out /\ Forall (fun v => v_val v <> 0%Z) out /\
+    forall x, sig out x = nz_opt (ssum vss x)).
+Check (C15_fill : forall vs, sorted_from 0 vs ->
+  exists out, fill (map IV vs) = Ok (map IV out) /\ tiles 0 (end_from 0 vs) out /\ zeros_added vs out).
+Check (C15_fill_start_to_end : forall vs start end_, sorted_from start vs -> end_from start vs <= end_ ->
+  exists out, fill_start_to_end (map IV vs) start end_ = Ok (map IV out) /\ tiles start end_ out /\ zeros_added vs out).
+Check (C15_fill_signal : forall ins outs s e, zeros_added ins outs -> tiles s e outs ->
+  forall x, sigz outs x = sigz ins x /\ cov outs x = (s <=? x) && (x <? e)).
+Check (C15_tool_pipeline : forall W maxfds size bws thr adj clip,
+  0 < W -> Forall (sorted_from 0) bws -> Forall (fun vs => end_from 0 vs <= size) bws ->
+  (length bws <= maxfds)%nat ->
+  exists merged out, merge_sections_many W (map (map IV) bws) = Ok (map IV merged) /\
+    out = filter (fun v => above (Some thr) (v_val v)) (map (clip_adjust clip (unwrap_or0 adj)) merged) /\
+    tool_chrom W maxfds size bws thr adj clip = Ok (map IV out) /\
+    sorted_from 0 out /\ forall x, sig out x = tool_expected bws thr adj clip x).
+Check (C15_tool_chunked : forall W maxfds size bws thr adj clip,
+  0 < W -> (2 <= maxfds)%nat -> Forall (sorted_from 0) bws -> Forall (fun vs => end_from 0 vs <= size) bws ->
+  (maxfds < length bws)%nat ->
+  exists out, tool_chrom W maxfds size bws thr adj clip = Ok (map IV out) /\
+    sorted_from 0 out /\ forall x, sig out x = tool_expected bws thr adj clip x).
+Check (C15_output_names : forall stem suf t name,
+  (to_lower suf = s_dot_bw \/ to_lower suf = s_dot_bigwig -> detect_output None (stem ++ suf) = Some OBigWig) /\
+  (to_lower suf = s_dot_bedgraph -> detect_output None (stem ++ suf) = Some OBedGraph) /\
+  (to_lower t = s_bigwig -> detect_output (Some t) name = Some OBigWig) /\
+  (to_lower t = s_bedgraph -> detect_output (Some t) name = Some OBedGraph) /\
+  detect_output None (stem ++ [46; 98; 119]) = Some OBigWig /\
+  detect_output None (stem ++ [46; 98; 105; 103; 87; 105; 103]) = Some OBigWig /\
+  detect_output None (stem ++ [46; 98; 101; 100; 71; 114; 97; 112; 104]) = Some OBedGraph).
+
+(* the definitions the statements rest on, pinned by value *)
+Check (eq_refl : inb = fun v x => (v_start v <=? x) && (x <? v_end v)).
+Check (eq_refl : nz_opt = fun z => if isz z then None else Some z).
+Check (eq_refl : isz = fun z => Z.eqb z 0).
+Check (eq_refl : oz = fun o => match o with Some z => z | None => 0%Z end).
+Check (eq_refl : cov = fun l x => existsb (fun v => inb v x) l).
+Check (eq_refl : sig [mkV 2 5 7%Z; mkV 4 9 1%Z] 4 = Some 7%Z).
+Check (eq_refl : sigz [mkV 2 5 7%Z; mkV 4 9 1%Z] 4 = 8%Z).
+Check (eq_refl : ssum [[mkV 2 5 7%Z]; []; [mkV 4 9 1%Z]] 4 = 8%Z).
+Check (eq_refl : sorted_from 3 [mkV 3 5 0%Z; mkV 5 6 1%Z] = (3 <= 3 /\ 3 < 5 /\ 5 <= 5 /\ 5 < 6 /\ True)).
+Check (eq_refl : tiles 3 6 [mkV 3 5 0%Z; mkV 5 6 1%Z] = (3 = 3 /\ 3 < 5 /\ 5 = 5 /\ 5 < 6 /\ 6 = 6)).
+Check (eq_refl : end_from 3 [mkV 3 5 0%Z; mkV 5 6 1%Z] = 6).
+Check (eq_refl : above = fun threshold x => match threshold with Some t => Z.ltb t x | None => true end).
+Check (eq_refl : tool_expected = fun bws thr adj clip x =>
+  let s := ssum bws x in
+  if isz s then None
+  else let v := ((match clip with Some c => Z.min c s | None => s end) + unwrap_or0 adj)%Z in
+       if Z.ltb thr v then Some v else None).
+Check (eq_refl : s_dot_bw = [46; 98; 119]).
+Check (eq_refl : s_dot_bigwig = [46; 98; 105; 103; 119; 105; 103]).
+Check (eq_refl : s_dot_bedgraph = [46; 98; 101; 100; 103; 114; 97; 112; 104]).
+Check (eq_refl : s_bigwig = [98; 105; 103; 119; 105; 103]).
+Check (eq_refl : s_bedgraph = [98; 101; 100; 103; 114; 97; 112; 104]).
+Check (za_nil : zeros_added [] []).
+Check (za_keep : forall v ins outs, zeros_added ins outs -> zeros_added (v :: ins) (v :: outs)).
+Check (za_zero : forall s e ins outs, zeros_added ins outs -> zeros_added ins (mkV s e 0%Z :: outs)).
 End PinC15.
